@@ -252,6 +252,7 @@ class Exec:
             self.c['const_hook'] = self.c['const_hook_factory'](self)
         self.in_loop = 0
         self.inline_depth = 0
+        self.inlined = set()          # labels of functions inlined at call sites (helpers without contract): part of the verified text
         self.assumed = set()          # names of assumed primitive models actually used
         self.st0 = None
         self.finished = []            # states that reached the postcondition
@@ -677,6 +678,7 @@ class Exec:
         if self.inline_depth >= 6:
             raise NotInSubset(f'inlining depth exceeded at call of {uf.fdef.name}')
         fd = uf.fdef
+        self.inlined.add(uf.label)
         a = fd.args
         if a.kwarg is not None:
             raise NotInSubset(f'inlined call of {fd.name}: **kwargs parameter')
